@@ -78,6 +78,15 @@ def check_program(idx, src, tmp, seeds, helpers=None):
     # the same text as `base64` / MIME tools print it: lines of 76 characters
     runs[("b64 in 76-character lines", seeds[0])] = cli(["-s", base64.encodebytes(src.encode()).decode()], d, dict(extra, PYTHONHASHSEED=seeds[0]))
     runs[("path+timer", seeds[0])] = cli([path], d, dict(extra, PYTHONHASHSEED=seeds[0], NADA_TIMER="1"))
+    if isinstance(idx, int) and idx % 3 == 0:
+        # the same text saved with a byte order mark (as some editors do), from its path and as base64 of the same bytes
+        bom_path = os.path.join(d, f"prog_{idx}_bom.py")
+        with open(bom_path, "w", encoding="utf-8-sig") as f:
+            f.write(src)
+        with open(bom_path, "rb") as f:
+            bom_bytes = f.read()
+        runs[("path, file with a byte order mark", seeds[0])] = cli([bom_path], d, dict(extra, PYTHONHASHSEED=seeds[0]))
+        runs[("b64 of the file with a byte order mark", seeds[0])] = cli(["-s", base64.b64encode(bom_bytes).decode()], d, dict(extra, PYTHONHASHSEED=seeds[0]))
     runs[("b64+timer", seeds[0])] = cli(["-s", b64], d, dict(extra, PYTHONHASHSEED=seeds[0], NADA_TIMER="1"))
     parsed = {}
     for k, (rc, out) in runs.items():
@@ -92,7 +101,8 @@ def check_program(idx, src, tmp, seeds, helpers=None):
     if runs[("b64", seeds[0])][1] != runs[("b64", seeds[-1])][1]:
         viol.append(("hash-seed", "base64 entry point: stdout differs between hash seeds"))
     p0 = parsed.get(("path", seeds[0]))
-    for k in (("b64", seeds[0]), ("b64 in 76-character lines", seeds[0]), ("path+timer", seeds[0]), ("b64+timer", seeds[0])):
+    for k in (("b64", seeds[0]), ("b64 in 76-character lines", seeds[0]), ("path+timer", seeds[0]), ("b64+timer", seeds[0]),
+              ("path, file with a byte order mark", seeds[0]), ("b64 of the file with a byte order mark", seeds[0])):
         pk = parsed.get(k)
         if p0 is None or pk is None:
             continue
@@ -216,6 +226,8 @@ FAILING = {
                                     "    return [Output(a.no_such_method(), 'o', p)]\n",
     "missing object field": "from nada_dsl import *\n\ndef nada_main():\n    p = Party(name='P')\n    a = SecretInteger(Input(name='a', party=p))\n"
                             "    o = Object.new({'k': a})\n    return [Output(o.missing, 'o', p)]\n",
+    "exception that cannot describe itself": "from nada_dsl import *\n\n\nclass Refused(Exception):\n    def __str__(self):\n        raise RuntimeError('no text')\n\n\n"
+                                             "def nada_main():\n    raise Refused()\n",
 }
 
 REASONS_MUST_AGREE = {"raises", "raises without a message", "bare assert", "branches on a secret", "multi-line message", "returns a non-output",
